@@ -20,14 +20,14 @@ ID = "C17"
 RULE = ("harness-built cover-labelled networks: N 8..16 vertices, 5..12 motifs from {edge, triangle, 4-cycle, chorded 4-cycle, K4, 5-cycle, house, chorded 6-cycle, bow-tie, tadpole, 6-cycle, chorded 4-cycle with a tail, 3-star}, "
         "motifs pairwise sharing <= 1 vertex, with cycles in the motif hypergraph (10% tree-like controls); phi grid of 11 (quick) / 21 (thorough) "
         "points + random; iterations in {1,2,3,5,25,60}; histories of 10..40 queries per object in random, ascending and descending phi order with "
-        "repeats; non-trivial = giant-component fraction > 1e-3 at some fast-convergence phi; distinct = SHA-1 of the labelled network")
+        "repeats; every case then evaluates a SECOND network (same motif ids and vertex labelling, other shapes) with a new object in the same process; non-trivial = giant-component fraction > 1e-3 at some fast-convergence phi; distinct = SHA-1 of the labelled network")
 ASSUMPTIONS = ["equality with the reference fixed point is asserted only at phi where the reference converges to 1e-13 within 20 sweeps under four different in-place update orders (forward, reverse, two random) and all four agree (fast, order-independent points), at 1e-6; where the equations have several fixed points the property does not say which update order selects 'the' fixed point",
                "label format f'{k}-{vertices}-{edges}-{id}' as the mixin parses it; vertex ids are non-negative ints",
                "`_H_tau` residual check is auxiliary (hasattr-guarded)"]
 HEADLINE = ["networks", "queries", "fixed_point_equalities", "nontrivial_equalities", "slow_points_skipped", "order_dependent_points_skipped", "monotonicity_pairs", "bounds_checks",
-            "reuse_vs_fresh_checks", "residual_checks", "loopy_networks", "treelike_controls"]
-REQUIRED = {"quick": {"fixed_point_equalities": 20, "nontrivial_equalities": 5, "monotonicity_pairs": 100, "reuse_vs_fresh_checks": 30, "loopy_networks": 5},
-            "thorough": {"fixed_point_equalities": 500, "nontrivial_equalities": 100, "monotonicity_pairs": 3000, "reuse_vs_fresh_checks": 800, "loopy_networks": 100}}
+            "reuse_vs_fresh_checks", "residual_checks", "loopy_networks", "treelike_controls", "second_networks", "second_network_equalities"]
+REQUIRED = {"quick": {"fixed_point_equalities": 20, "nontrivial_equalities": 5, "monotonicity_pairs": 100, "reuse_vs_fresh_checks": 30, "loopy_networks": 5, "second_network_equalities": 10},
+            "thorough": {"fixed_point_equalities": 500, "nontrivial_equalities": 100, "monotonicity_pairs": 3000, "reuse_vs_fresh_checks": 800, "loopy_networks": 100, "second_network_equalities": 200}}
 SHARD_TIMEOUT = {"quick": 900, "thorough": 10800}
 SHAPES = [[(0, 1)], [(0, 1), (1, 2), (0, 2)], [(0, 1), (1, 2), (2, 3), (3, 0)], [(0, 1), (1, 2), (2, 3), (3, 0), (0, 2)],
           list(itertools.combinations(range(4), 2)), [(0, 1), (1, 2), (2, 3), (3, 4), (4, 0)],
@@ -42,7 +42,9 @@ def gen_cases(tier, seed):
     return [{"seed": seed * 100313 + i, "grid": 11 if tier == "quick" else 21, "_cost": 1} for i in range(n)]
 
 
-def build(rng, treelike):
+def build(rng, treelike, like=None):
+    """like: (ids, relabelled) of an earlier network of this process - the new one then uses the same motif ids and the same
+    vertex labelling for other shapes on other vertex sets"""
     N = rng.randint(8, 16)
     nm = rng.randint(5, 12)
     G = nx.Graph()
@@ -70,7 +72,12 @@ def build(rng, treelike):
                 continue
             motifs.append((sorted(vs), [(vs[a], vs[b]) for a, b in sh]))
     ids = rng.sample(range(100), len(motifs))
-    if rng.random() < 0.5:
+    relabel = rng.random() < 0.5
+    if like is not None:
+        ids = (list(like[0]) + [i for i in ids if i not in like[0]])[: len(motifs)]
+        relabel = like[1]
+    build.last = (ids, relabel)
+    if relabel:
         # relabel to non-contiguous ids and insert the vertices in shuffled order (labels are not positions)
         f = {v: 3 * v + 2 for v in G.nodes()}
         ns = list(G.nodes()); rng.shuffle(ns)
@@ -149,6 +156,7 @@ def run_case(case):
     rng = random.Random(case["seed"])
     treelike = rng.random() < 0.1
     G, motifs, loopy = build(rng, treelike)
+    like = build.last
     res.count("networks")
     res.count("loopy_networks" if loopy else "treelike_controls")
     ref = Reference(G, motifs)
@@ -244,6 +252,32 @@ def run_case(case):
                 break
             if iters >= 1 and 0.0 in seen and abs(seen[0.0]) > 1e-12:
                 res.violate("nonzero-at-phi=0", iterations=iters, got=seen[0.0], ctx=ctx); break
+    # (4) history across objects: another network in the same process whose motif ids and vertex labels coincide with the first
+    # one's but whose motifs have other shapes, evaluated by a NEW object; it must answer for its own network
+    if res.verdict == "held":
+        G2, motifs2, loopy2 = build(rng, False, like=like)
+        ref2 = Reference(G2, motifs2)
+        ctx2 = {"second_network_in_this_process": True, "motifs": [(vs, es) for vs, es in motifs2], "n": G2.order(), "first_network_motifs": ctx["motifs"]}
+        MP2 = sut("MessagePassing(G2, iterations=40)", gcmpy.MessagePassing, G2, iterations=40)
+        res.count("second_networks")
+        done = 0
+        for phi in [0.0] + rng.sample(grid[1:-1], len(grid) - 2):
+            if done >= 3:
+                break
+            if phi == 0.0:
+                a = sut("theoretical(second network)", MP2.theoretical, phi)
+                if abs(a) > 1e-12:
+                    res.violate("nonzero-at-phi=0", got=a, ctx=ctx2); break
+                continue
+            S, why = ref2.solve_order_independent(phi, orng)
+            if why != "ok":
+                continue
+            done += 1
+            a = sut("theoretical(second network)", MP2.theoretical, phi)
+            res.count("queries")
+            res.count("second_network_equalities")
+            if abs(a - S) > 1e-6:
+                res.violate("differs-from-the-reference-fixed-point", phi=phi, got=a, want=S, ctx=ctx2); break
     res.nontrivial = nt
     res.sample = {"motifs": [(vs, es) for vs, es in motifs], "n": G.order(), "loopy": loopy, "fast_points": sorted(fast)[:12]}
     res.digest = digest(res.sample)
